@@ -19,6 +19,8 @@ STEPS = ["--info-file", "@info", "--rest-file", "@rest", "--wildcard-file", "@wi
 STEPS_PAIRED_EXTRA = ["-A", "B=TTTT"]
 
 
+OUTPUT = "StageOrder.lean"      # the generated file (harness/core.py: a failure of this translator concerns the properties that import it)
+
 def _cls(x):
     return "None" if x is None else type(x).__name__
 
